@@ -497,10 +497,18 @@ pub fn run_shut_case(which: Which, case: &ShutCase) -> SeqOutcome {
             let evs = salsa::verif_hooks::drain();
             proto.feed(&evs, &mut v);
             proto.finish(&mut v);
+            let mut conv: BTreeMap<(u32, u64), (bool, bool)> = BTreeMap::new();
             for h in evs {
-                if let T::CycleHead { ingredient, key, finalized, deps_stable, .. } = h {
+                if let T::CycleHead { ingredient, key, finalized, deps_stable, value_converged, metadata_converged, heads, .. } = h {
                     last.insert((ingredient, key), deps_stable);
+                    conv.insert((ingredient, key), (value_converged, metadata_converged));
                     if finalized {
+                        if let Some((k, (vc, mc))) = conv.iter().find(|(k, (vc, mc))| heads.contains(k) && (!*vc || !*mc)) {
+                            v.push(viol("cycle-finalized-before-convergence", format!("cycle finalized although head {k:?} had value_converged={vc} metadata_converged={mc} in its last iteration")));
+                        }
+                        for k in &heads {
+                            conv.remove(k);
+                        }
                         if last.values().any(|s| !*s) {
                             unstable = true;
                         }
@@ -634,7 +642,7 @@ pub fn rule_belongs(prop: &str, rule: &str) -> bool {
     match prop {
         "C16" => termination || rule == "value-mismatch",
         "C17" => rule == "executed-twice-in-one-revision",
-        "C18" => termination || rule == "value-mismatch" || rule.starts_with("kf:"),
+        "C18" => termination || rule == "value-mismatch" || rule == "cycle-finalized-before-convergence" || rule.starts_with("kf:"),
         "C08" => rule.starts_with("interned-"),
         "C19" => rule.starts_with("c19-"),
         "C24" => rule.starts_with("input-") || rule.starts_with("struct-") || rule.starts_with("interned-") || rule == "unexpected-panic" || rule == "panic-under-shuttle",
